@@ -229,9 +229,46 @@ fn gen_c09(seed: u64, _index: u64, tier: Tier) -> ServerPlan {
     let authoritative_only = r.chance(0.7);
     let (apex, recs) = c09_zone(&mut r);
     let soa = format!("SOA ns.{apex} admin.{apex} 1 3600 600 86400 60");
+    let mut zone_body = zone_text(Some((&apex, &soa)), &recs);
+    // names whose full reply lands exactly on and around the 512-byte limit
+    // (sizes calibrated by measuring, not by judging, the encoder)
+    for (k, target) in [510usize, 511, 512, 513, 514].iter().enumerate() {
+        let name = child_name(&format!("pad{k}"), &apex);
+        let line = |x: usize| format!("{name} 300 IN TXT \"{}\"\n", "a".repeat(x));
+        let measure = |x: usize| -> Option<usize> {
+            let text = format!("{zone_body}{}", line(x));
+            let zone = match dns_types::zones::types::Zone::deserialise(&text) {
+                Ok(z) => z,
+                Err(e) => {
+                    if std::env::var("VERIF_DEBUG").is_ok() {
+                        eprintln!("calibration: zone does not parse: {e:?}");
+                    }
+                    return None;
+                }
+            };
+            let mut zones = Zones::new();
+            zones.insert(zone);
+            let q = question(&name, "TXT");
+            let (an, au, aa, rc) = expected_sections(&resolver_says(&zones, &q));
+            let mut m = Message::from_question(1, q).make_response();
+            m.header.is_authoritative = aa;
+            m.header.rcode = rc;
+            m.answers = an;
+            m.authority = au;
+            m.to_octets().ok().map(|b| b.len())
+        };
+        if let Some(base) = measure(10) {
+            if *target >= base {
+                let x = target - base + 10;
+                if measure(x) == Some(*target) {
+                    zone_body.push_str(&line(x));
+                }
+            }
+        }
+    }
     let mut files = vec![FileSpec {
         path: "zones/example.zone".into(),
-        content: zone_text(Some((&apex, &soa)), &recs),
+        content: zone_body,
     }];
     files.push(FileSpec {
         path: "hosts/blocklist".into(),
@@ -253,7 +290,7 @@ fn gen_c09(seed: u64, _index: u64, tier: Tier) -> ServerPlan {
         });
         u
     };
-    let names_local = ["www", "mail", "txt", "alias", "alias2", "dangling", "deleg", "below.deleg", "x.w", "mid", "leaf.mid", "big", "edge", "nothing"];
+    let names_local = ["www", "mail", "txt", "alias", "alias2", "dangling", "deleg", "below.deleg", "x.w", "mid", "leaf.mid", "big", "edge", "nothing", "pad0", "pad1", "pad2", "pad2", "pad3", "pad4"];
     let mut names: Vec<String> = names_local.iter().map(|n| child_name(n, &apex)).collect();
     names.push(apex.clone());
     names.push("ads.example.net.".into());
@@ -633,7 +670,12 @@ pub fn judge_message(
                 full.answers = an.clone();
                 full.authority = au.clone();
                 let full_len = full.to_octets().map(|b| b.len()).unwrap_or(0);
-                let near_limit = (500..=524).contains(&full_len);
+                // only an ANY answer is laid out in HashMap order, which moves
+                // compression pointers and so the length by a few bytes
+                let near_limit = q.questions[0].qtype == QueryType::Wildcard && (500..=524).contains(&full_len);
+                if full_len == 512 {
+                    bump(stats, "probe.full_reply_exactly_512_bytes");
+                }
                 if m.proto == "udp" {
                     let want_tc = full_len > 512;
                     if want_tc {
@@ -803,7 +845,7 @@ impl Property for C09 {
             "unparseable input with the QR bit set: no reply or one FORMERR are both accepted".into(),
             "zero questions: any RCODE, exactly one well-framed reply".into(),
             "a client that closed or reset before the reply may see nothing".into(),
-            "replies whose full encoding is within 500..524 bytes: TC either way (HashMap-ordered name compression)".into(),
+            "ANY replies whose full encoding is within 500..524 bytes: TC either way (HashMap-ordered name compression); for every other type TC is judged exactly, with record sets calibrated to 510..514 bytes".into(),
             "for recursive servers only framing, header echo, RA and answer-section owners are judged".into(),
         ]
     }
